@@ -55,6 +55,8 @@ class sx_int(metaclass=_Meta):
     __sx_sym__ = (SI,)
 
     def __new__(cls, x=0, *a):
+        if hasattr(x, '__sx_int__'):
+            return x.__sx_int__()
         if isinstance(x, SI):
             return x
         if isinstance(x, SR):
